@@ -30,6 +30,7 @@ def Expr.noLayoutE : Expr → Prop
   | .wth _ _ _ _ _ b a => noLayout b ∧ noLayout a
   | .asrt _ _ _ _ b a => noLayout b ∧ noLayout a
   | .sel _ _ _ _ b a => noLayout b ∧ noLayout a
+  | .selOr _ _ _ _ _ _ _ b a => noLayout b ∧ noLayout a
 def allNoLayout : List Expr → Prop
   | [] => True
   | e :: rest => e.noLayoutE ∧ allNoLayout rest
@@ -61,6 +62,7 @@ theorem noLayoutE_before {e : Expr} (h : e.noLayoutE) : noLayout e.before := by
   | wth e bd c g s b a => exact h.1
   | asrt c bd x y b a => exact h.1
   | sel e ats g ab b a => exact h.1
+  | selOr e ats g ab d dg db b a => exact h.1
 theorem noLayoutE_after {e : Expr} (h : e.noLayoutE) : noLayout e.after := by
   cases e with
   | leaf k t b a => exact h.2
@@ -72,6 +74,7 @@ theorem noLayoutE_after {e : Expr} (h : e.noLayoutE) : noLayout e.after := by
   | wth e bd c g s b a => exact h.2
   | asrt c bd x y b a => exact h.2
   | sel e ats g ab b a => exact h.2
+  | selOr e ats g ab d dg db b a => exact h.2
 theorem noLayoutE_setBefore {e : Expr} (h : e.noLayoutE) {b : List Trivia} (hb : noLayout b) : (e.setBefore b).noLayoutE := by
   cases e with
   | leaf k t b' a => exact ⟨hb, h.2⟩
@@ -83,6 +86,7 @@ theorem noLayoutE_setBefore {e : Expr} (h : e.noLayoutE) {b : List Trivia} (hb :
   | wth e bd c g s b' a => exact ⟨hb, h.2⟩
   | asrt c bd x y b' a => exact ⟨hb, h.2⟩
   | sel e ats g ab b' a => exact ⟨hb, h.2⟩
+  | selOr e ats g ab d dg db b' a => exact ⟨hb, h.2⟩
 theorem noLayoutE_addAfter {e : Expr} (h : e.noLayoutE) {a : List Trivia} (ha : noLayout a) : (e.addAfter a).noLayoutE := by
   have haa := noLayout_append.mpr ⟨noLayoutE_after h, ha⟩
   cases e with
@@ -95,6 +99,7 @@ theorem noLayoutE_addAfter {e : Expr} (h : e.noLayoutE) {a : List Trivia} (ha : 
   | wth e bd c g s b a' => exact ⟨h.1, haa⟩
   | asrt c bd x y b a' => exact ⟨h.1, haa⟩
   | sel e ats g ab b a' => exact ⟨h.1, haa⟩
+  | selOr e ats g ab d dg db b a' => exact ⟨h.1, haa⟩
 
 theorem allNoLayout_append : ∀ {a b : List Expr}, allNoLayout a → allNoLayout b → allNoLayout (a ++ b)
   | [], _, _, hb => hb
@@ -277,6 +282,7 @@ theorem cst_noLayout : (c : Cst) → c.wf = true → containsNL c.flatten = fals
     | paren v lg tg lb tb b' a' => simp only [Expr.before] at heb; simp only [Expr.after] at hea; subst heb; subst hea; exact ⟨noLayout_nil, noLayout_nil⟩
     | app n x g' fa b' a' => simp only [Expr.before] at heb; simp only [Expr.after] at hea; subst heb; subst hea; exact ⟨noLayout_nil, noLayout_nil⟩
     | sel ee ats g' ab b' a' => simp only [Expr.before] at heb; simp only [Expr.after] at hea; subst heb; subst hea; exact ⟨noLayout_nil, noLayout_nil⟩
+    | selOr ee ats g' ab d dg db b' a' => simp only [Expr.before] at heb; simp only [Expr.after] at hea; subst heb; subst hea; exact ⟨noLayout_nil, noLayout_nil⟩
     | list v m inn b' a' => simp only [Cst.parse] at hp; (repeat' split at hp) <;> first | cases hp | (injection hp with hp; (try split at hp) <;> cases hp)
     | set v m r inn b' a' => simp only [Cst.parse] at hp; (repeat' split at hp) <;> first | cases hp | (injection hp with hp; (try split at hp) <;> cases hp)
     | binding n v g' b' a' => simp only [Cst.parse] at hp; (repeat' split at hp) <;> first | cases hp | (injection hp with hp; (try split at hp) <;> cases hp)
@@ -285,6 +291,15 @@ theorem cst_noLayout : (c : Cst) → c.wf = true → containsNL c.flatten = fals
     cases hpe : e.parse with
     | error err => rw [hpe] at hp; cases hp
     | ok ee => rw [hpe] at hp; injection hp with hp; subst hp; exact ⟨noLayout_nil, noLayout_nil⟩
+  | .selOr e c1 g1 gd attrs c2 g2 g3 d, _, _, ex, hp => by
+    simp only [Cst.parse] at hp
+    cases hpe : e.parse with
+    | error err => rw [hpe] at hp; cases hp
+    | ok ee =>
+      rw [hpe] at hp
+      cases hpd : d.parse with
+      | error err => rw [hpd] at hp; cases hp
+      | ok de => rw [hpd] at hp; injection hp with hp; subst hp; exact ⟨noLayout_nil, noLayout_nil⟩
 theorem items_noLayout : (its : Items) → ∀ (m : Mode) (cg : Text) (st st' : SeqSt), its.wf m cg = true →
     containsNL (its.flatten ++ cg) = false → its.parseSeq m st = .ok st' →
     allNoLayout st.items ∧ noLayout st.before → allNoLayout st'.items ∧ noLayout st'.before
@@ -375,6 +390,7 @@ theorem noLayoutE_effAfter {e : Expr} (h : e.noLayoutE) : noLayout (e.effAfter f
   | wth e bd c g s b a => exact h.2
   | asrt c bd x y b a => exact h.2
   | sel e ats g ab b a => exact h.2
+  | selOr e ats g ab d dg db b a => exact h.2
 
 theorem ok_effAfter {e : Expr} (h : e.ok) : TrivOk (e.effAfter false) := by
   cases e with
@@ -389,6 +405,7 @@ theorem ok_effAfter {e : Expr} (h : e.ok) : TrivOk (e.effAfter false) := by
   | wth e bd c g s b a => exact h.2.2.2.2.2
   | asrt c bd x y b a => exact h.2.2.2.2.2
   | sel e ats g ab b a => exact h.2.2.2.2.2
+  | selOr e ats g ab d dg db b a => exact h.2.2.2.2.2.2.2
 
 theorem allClosed_of_noLayout : ∀ {es : List Expr}, allOk es → allNoLayout es → allClosed es
   | [], _, _ => trivial
@@ -406,6 +423,7 @@ def Expr.flatClosed : Expr → Prop
   | .wth .. => True
   | .asrt .. => True
   | .sel .. => True
+  | .selOr .. => True
 def allFlatClosed : List Expr → Prop
   | [] => True
   | e :: rest => e.flatClosed ∧ allFlatClosed rest
@@ -554,6 +572,15 @@ theorem cst_flat : (c : Cst) → c.wf = true → ∀ (e : Expr), c.parse = .ok e
     cases hpe : e.parse with
     | error err => rw [hpe] at hp; cases hp
     | ok ee => rw [hpe] at hp; injection hp with hp; subst hp; trivial
+  | .selOr e c1 g1 gd attrs c2 g2 g3 d, _, ex, hp => by
+    simp only [Cst.parse] at hp
+    cases hpe : e.parse with
+    | error err => rw [hpe] at hp; cases hp
+    | ok ee =>
+      rw [hpe] at hp
+      cases hpd : d.parse with
+      | error err => rw [hpd] at hp; cases hp
+      | ok de => rw [hpd] at hp; injection hp with hp; subst hp; trivial
 theorem items_flat : (its : Items) → ∀ (m : Mode) (cg : Text) (st st' : SeqSt), its.wf m cg = true →
     its.parseSeq m st = .ok st' → allFlatClosed st.items → allFlatClosed st'.items
   | .nil, m, cg, st, st', _, hp, h => by
@@ -638,6 +665,7 @@ theorem inlineClean_of_flat : (e : Expr) → e.beforeFlatB = true → e.flatClos
   | .wth .., h, _ => by simp [Expr.beforeFlatB] at h
   | .asrt .., h, _ => by simp [Expr.beforeFlatB] at h
   | .sel .., h, _ => by simp [Expr.beforeFlatB] at h
+  | .selOr .., h, _ => by simp [Expr.beforeFlatB] at h
 theorem allInlineClean_of_flat : (es : List Expr) → allBeforeFlatB es = true → allFlatClosed es → allInlineClean es
   | [], _, _ => trivial
   | e :: rest, h, hf => by
